@@ -14,7 +14,7 @@ variable {K V : Type}
 /-- Search / NewScanner / Insert / Update / cursor hop / pause continuations -/
 theorem resume_post_U (P : Params K) (t : Nat) (s : St K V) (k : Kont K V) (H : List Lk) (hole : Option Nat)
     (hnd : isDelK k = false)
-    (hpre : Pre P hole s) (hnh : ∀ x, hole = some x → Lk.node x ∉ H)
+    (hpre : Pre P hole s)
     (hk : KontOk s.tree k) (hc : CursorOk s.tree (isHopK k) s.cursor) (hkp : KontPre s.cursor k)
     (hcov : Covers H s.cursor k) :
     Post H hole s (resume P t s k).1 (resume P t s k).2 ∧ flowHole (resume P t s k).2 = none := by
